@@ -43,14 +43,10 @@ import (
 	"verifharness/oracle"
 )
 
-// stallTimeout is the read timeout of the listener used for stalled writers. A
-// stalled-writer case is only judged when the harness itself had all its bytes in
-// the socket within stallVoid of starting to connect (otherwise the handler may
-// legitimately have timed out before the data existed: the case is void).
-const (
-	stallTimeout = 250 * time.Millisecond
-	stallVoid    = 180 * time.Millisecond
-)
+// stallTimeout is the read timeout of the listener used for stalled writers.
+// The number of bytes the relay had received when the timeout struck is taken
+// from the reader side (countingReader), never inferred from the clock.
+const stallTimeout = 150 * time.Millisecond
 
 const (
 	plainLimit = 65536 // line length including terminator the Scanner-based inputs support
@@ -381,7 +377,7 @@ func genLong(r *mon.Rng, maxTotal, limit int, unterminatedMax int) []byte {
 	}
 	if r.Chance(1, 3) {
 		room := maxTotal - b.Len()
-		n := r.PickInt([]int{1, 50, 4096, unterminatedMax - 1, unterminatedMax})
+		n := r.PickInt([]int{1, 50, min(4096, unterminatedMax), unterminatedMax - 1, unterminatedMax})
 		if n > room {
 			n = room
 		}
@@ -581,7 +577,7 @@ func (c *checker) plainPhase() {
 	}
 	sub("curated")
 	// 2. random small streams, exhaustive
-	nSmall := scale(mon.N(40, 2500))
+	nSmall := scale(mon.N(40, 2800))
 	for i := 0; i < nSmall; i++ {
 		if !mon.Mine(caseNo) {
 			caseNo++
@@ -639,8 +635,8 @@ func (c *checker) plainPhase() {
 	}
 	sub("carbon")
 	// 4. streams up to 300 KB with lines at the limit
-	nLong := scale(mon.N(30, 1500))
-	perLong := mon.N(6, 12)
+	nLong := scale(mon.N(30, 800))
+	perLong := mon.N(6, 10)
 	longLines := 0
 	for i := 0; i < nLong; i++ {
 		if !mon.Mine(caseNo) {
@@ -692,7 +688,7 @@ func (c *checker) plainPhase() {
 	res.Count("plain_segmentations_cut_inside_a_line", st.nontrivial)
 	res.Count("plain_lines_dispatched", st.lines)
 	res.Count("plain_lines_at_64k_limit", longLines)
-	res.Floor("plain_segmentations", st.segs, mon.N(40000, 3000000))
+	res.Floor("plain_segmentations", st.segs, mon.N(40000, 3000000)*scalePct()/100)
 }
 
 func sortInts(a []int) {
@@ -790,6 +786,20 @@ type connDone struct {
 	remote string
 	lines  [][]byte
 	err    error
+	read   int // bytes the handler's Read calls returned
+}
+
+// countingReader sits between the real (Timeout)Conn and the real Plain handler:
+// only the reader side knows how many bytes had arrived when a read timed out.
+type countingReader struct {
+	r io.Reader
+	n int
+}
+
+func (c *countingReader) Read(p []byte) (int, error) {
+	n, err := c.r.Read(p)
+	c.n += n
+	return n, err
 }
 
 // perConnPlain is the Handler given to the real Listener: every connection /
@@ -812,16 +822,17 @@ func (h *perConnPlain) Kind() string { return "plain" }
 
 func (h *perConnPlain) Handle(r io.Reader) error {
 	cd := &mon.CaptureDispatcher{}
-	err := input.NewPlain(cd).Handle(r)
+	cr := &countingReader{r: r}
+	err := input.NewPlain(cd).Handle(cr)
 	lines, _ := cd.Snapshot()
 	if c, ok := r.(net.Conn); ok {
-		d := connDone{c.RemoteAddr().String(), lines, err}
+		d := connDone{c.RemoteAddr().String(), lines, err, cr.n}
 		h.mu.Lock()
 		h.tcp[d.remote] = d
 		h.cond.Broadcast()
 		h.mu.Unlock()
 	} else {
-		h.udp <- connDone{"", lines, err}
+		h.udp <- connDone{"", lines, err, cr.n}
 	}
 	return err
 }
@@ -949,7 +960,11 @@ func (c *checker) runTCPCase(h *perConnPlain, addr *net.TCPAddr, tc tcpCase) (li
 		res.Inconclusive(fmt.Sprintf("tcp case %d: handler did not return within the watchdog", tc.idx))
 		return 0, false
 	}
-	want := oracle.Split(tc.stream)
+	if d.err == nil && d.read != len(tc.stream) {
+		res.Violate("tcp:bytes-unread", fmt.Sprintf("the handler returned without error after reading %d of the %d bytes that were sent before the connection was closed", d.read, len(tc.stream)),
+			map[string]interface{}{"tcp_case": tc.idx, "stream": streamWitness(tc.stream), "writes": tc.writes})
+	}
+	want := oracle.Split(tc.stream[:min(d.read, len(tc.stream))])
 	c.judge("tcp", d.lines, want, func() map[string]interface{} {
 		return map[string]interface{}{"tcp_case": tc.idx, "stream": streamWitness(tc.stream), "writes": tc.writes, "pace": tc.pace, "half_close": tc.half, "handler_returned": fmt.Sprint(d.err)}
 	})
@@ -970,7 +985,7 @@ func (c *checker) listenerPhase() {
 
 	tPh := time.Now()
 	// ---- tcp, paced writes
-	nTCP := scale(mon.N(500, 16000))
+	nTCP := scale(mon.N(500, 12000))
 	var mu sync.Mutex
 	conns, ntConns, tlines := 0, 0, 0
 	jobs := make(chan tcpCase)
@@ -1013,7 +1028,7 @@ func (c *checker) listenerPhase() {
 	res.Count("tcp_connections", conns)
 	res.Count("tcp_connections_written_with_a_cut_inside_a_line", ntConns)
 	res.Count("tcp_lines_dispatched", tlines)
-	res.Floor("tcp_connections", conns, mon.N(450, 15000))
+	res.Floor("tcp_connections", conns, mon.N(450, 11000)*scalePct()/100)
 
 	// ---- udp
 	nUDP := scale(mon.N(800, 25000))
@@ -1069,7 +1084,7 @@ func (c *checker) listenerPhase() {
 	}
 	res.Count("udp_datagrams", dgrams)
 	res.Count("udp_lines_dispatched", ulines)
-	res.Floor("udp_datagrams", dgrams, mon.N(700, 24000))
+	res.Floor("udp_datagrams", dgrams, mon.N(700, 24000)*scalePct()/100)
 	l.Stop()
 
 	// ---- tcp with a read timeout: the client sends a prefix in one write and stalls
@@ -1096,7 +1111,6 @@ func (c *checker) listenerPhase() {
 		go func(i int, s []byte, k int) {
 			defer wg2.Done()
 			defer func() { <-sem }()
-			t0 := time.Now()
 			conn, err := net.DialTCP("tcp", nil, ta2.(*net.TCPAddr))
 			if err != nil {
 				res.Inconclusive("tcp-timeout: cannot connect: " + err.Error())
@@ -1110,17 +1124,21 @@ func (c *checker) listenerPhase() {
 					return
 				}
 			}
-			late := time.Since(t0) > stallVoid
 			d, ok := ht.waitTCP(conn.LocalAddr().String(), 120*time.Second)
 			if !ok {
 				res.Inconclusive(fmt.Sprintf("tcp-timeout case %d: handler did not return within the watchdog", i))
 				return
 			}
-			if late {
+			if d.read > k {
+				res.Violate("tcp:bytes-invented", "the handler read more bytes than were sent", map[string]interface{}{"tcp_timeout_case": i, "sent": k, "read": d.read})
+				return
+			}
+			if d.read < k {
+				// the read deadline expired while data was already pending in the socket (possible when the
+				// process is starved of CPU): the stream the relay received ends after d.read bytes
 				mu.Lock()
 				stallsVoid++
 				mu.Unlock()
-				return
 			}
 			isTO := false
 			if ne, ok := d.err.(net.Error); ok && ne.Timeout() {
@@ -1128,15 +1146,15 @@ func (c *checker) listenerPhase() {
 			}
 			mu.Lock()
 			stalls++
-			if isTO {
+			if isTO && d.read == k {
 				stallsTimeoutSeen++
 			}
 			mu.Unlock()
 			if insideLine(s, k) {
 				res.NonTrivial(fmt.Sprintf("tcp-timeout/%d", i))
 			}
-			c.judge("tcp", d.lines, oracle.Split(s[:k]), func() map[string]interface{} {
-				return map[string]interface{}{"tcp_timeout_case": i, "stream": streamWitness(s), "bytes_sent_before_stalling": k, "read_timeout": stallTimeout.String(), "handler_returned": fmt.Sprint(d.err)}
+			c.judge("tcp", d.lines, oracle.Split(s[:d.read]), func() map[string]interface{} {
+				return map[string]interface{}{"tcp_timeout_case": i, "stream": streamWitness(s), "bytes_sent_before_stalling": k, "bytes_read_by_the_handler": d.read, "read_timeout": stallTimeout.String(), "handler_returned": fmt.Sprint(d.err)}
 			})
 			res.Eval(1)
 		}(i, s, k)
@@ -1144,9 +1162,9 @@ func (c *checker) listenerPhase() {
 	wg2.Wait()
 	lt.Stop()
 	res.Count("tcp_stalled_connections", stalls)
-	res.Count("tcp_stalled_connections_void_harness_was_late", stallsVoid)
-	res.Count("tcp_stalled_connections_ended_by_timeout_error", stallsTimeoutSeen)
-	res.Floor("tcp_stalled_connections_ended_by_timeout_error", stallsTimeoutSeen, mon.N(60, 1400))
+	res.Count("tcp_stalled_connections_timed_out_with_data_still_pending", stallsVoid)
+	res.Count("tcp_stalled_connections_ended_by_timeout_after_all_sent_bytes", stallsTimeoutSeen)
+	res.Floor("tcp_stalled_connections_ended_by_timeout_after_all_sent_bytes", stallsTimeoutSeen, mon.N(60, 1400)*scalePct()/100)
 }
 
 // ---------------------------------------------------------------- phase: amqp
@@ -1261,11 +1279,11 @@ func (c *checker) amqpPhase() {
 	res.Count("amqp_lines_dispatched", linesTotal)
 	res.Count("amqp_lines_at_4k_limit", nearLimit)
 	res.Count("amqp_bodies_ending_in_bare_cr", finalCR)
-	res.Floor("amqp_bodies", bodiesTotal, mon.N(800, 40000))
+	res.Floor("amqp_bodies", bodiesTotal, mon.N(800, 40000)*scalePct()/100)
 }
 
 // scale shrinks the case counts for monitor validation against mutants only
-// (C12_SCALE=25 runs a quarter; the floors then fail unless something fired).
+// (C12_SCALE=25 runs a quarter; the floors shrink with it).
 func scale(n int) int {
 	if v, err := strconv.Atoi(os.Getenv("C12_SCALE")); err == nil && v > 0 && v < 100 {
 		n = n * v / 100
@@ -1274,6 +1292,13 @@ func scale(n int) int {
 		}
 	}
 	return n
+}
+
+func scalePct() int {
+	if v, err := strconv.Atoi(os.Getenv("C12_SCALE")); err == nil && v > 0 && v < 100 {
+		return v
+	}
+	return 100
 }
 
 func main() {
